@@ -199,7 +199,8 @@ def run(prog, R):
           'ParallelRecordsets{empty_send<-recycle sender, done_recv<-result receiver}: %s' % cx.struct_fields)
 
     # ---------------- PAR-8
-    for nm, t in (('result-channel', cx.chan_done), ('recycle-channel', cx.chan_empty)):
+    # (the capacity of the *result* channel does not bound the number of sets and is not constrained)
+    for nm, t in (('recycle-channel', cx.chan_empty),):
         rs = cx.prov(rpi, t.args[0])
         ok = len(rs) == 1 and rs[0].is_param(rpi.key, P_QLEN, ())
         R.add('PAR-8', rpi, 'capacity:' + nm, ok, site(rpi, t.line),
